@@ -2,6 +2,7 @@ SPECIFICATION Spec
 CONSTANTS
   Alphabet = {32, 36, 37, 38, 43, 45, 46, 48, 49, 57, 69, 95, 97, 101, 102, 103}
   N = 5
+  Prefixes <- PrefixesNone
 INVARIANTS Lossless OneEofLast NonEmptyNonBlankStart Emit
 PROPERTIES Progress
 CHECK_DEADLOCK FALSE
